@@ -166,6 +166,156 @@ theorem reach_joinInv (c : Cfg) {s : State} (h : Reach c s) : JoinInv c s := by
       · cases hs
   | spur t _ hs ih => exact joinInv_spur c _ _ t ih hs
 
+theorem stepC_blk (c : Cfg) (s s' : State) (hs : stepC c s = some s') (hp : s.cpc ≠ .unlockB) : s'.blk = s.blk := by
+  unfold stepC at hs
+  split at hs <;> (try split at hs) <;> simp at hs <;> (try subst hs) <;> simp_all
+
+/-! ## which blocks are started: exactly those up to the block that contains the chosen index -/
+structure BlkInv (c : Cfg) (s : State) : Prop where
+  done : (s.cpc = .lockT ∨ termPhase s.cpc = true) →
+    s.blk ≤ c.blocks ∧
+    (0 < s.blk → (flat c.less c.m ((s.blk - 1) * c.n)).2 = none ∧ (s.blk - 1) * c.n < c.m) ∧
+    (s.blk < c.blocks → (flat c.less c.m (s.blk * c.n)).2.isSome = true)
+
+theorem termPhase_loopHead (c : Cfg) (i : Nat) (b : Bool) : termPhase (loopHead c i b) = false := by
+  simp only [loopHead]; split <;> rfl
+
+theorem blkInv_init (c : Cfg) : BlkInv c (init c) := by
+  constructor; intro h; rcases h with h | h <;> simp [init, termPhase] at h
+
+theorem blkInv_stepC (c : Cfg) (hn : 0 < c.n) (s s' : State) (hi : Inv c s) (h : BlkInv c s)
+    (hs : stepC c s = some s') : BlkInv c s' := by
+  have hd := h.done
+  cases hp : s.cpc with
+  | final => simp [stepC, hp] at hs
+  | waiting => simp [stepC, hp] at hs
+  | create k =>
+    simp only [stepC, hp] at hs; injection hs with hs; subst hs
+    have hb : s.blk = 0 := (hi.accCreate (by simp [hp, isCreate])).2.2
+    constructor
+    intro hx
+    dsimp only at hx ⊢
+    split at hx
+    · rcases hx with hx | hx <;> simp [termPhase] at hx
+    · have hl : loopHead c 0 false = .lockT := by
+        rcases hx with hx | hx
+        · exact hx
+        · rw [termPhase_loopHead] at hx; cases hx
+      have hb0 : ¬ 0 < c.blocks := by
+        intro h0; simp [loopHead, h0] at hl
+      rw [hb]
+      exact ⟨Nat.zero_le _, fun h0 => absurd h0 (Nat.lt_irrefl 0), fun h0 => absurd h0 hb0⟩
+  | unlockB =>
+    have hall := hi.unlockBAll hp
+    have hacc := hi.accLoop (Or.inr (by simp [hp, inBlock]))
+    have hvals : ∀ j, j < c.active s.blk → s.val j = some (s.blk * c.n + j) := fun j hj => by
+      have h1 := (hi.blockVals (by simp [hp, inBlock]) j hj).2
+      rcases h1 with h1 | h1
+      · rw [hall j hj] at h1; cases h1
+      · exact h1
+    have hscan : scan c s.val s.blk (s.base, s.chosen) = flat c.less c.m (s.blk * c.n + c.active s.blk) := by
+      rw [hacc.1]; exact scan_flat c s.val s.blk hvals
+    simp only [stepC, hp] at hs; injection hs with hs; subst hs
+    constructor
+    intro hx
+    dsimp only at hx ⊢
+    have hl : loopHead c (s.blk + 1) (scan c s.val s.blk (s.base, s.chosen)).2.isSome = .lockT := by
+      rcases hx with hx | hx
+      · exact hx
+      · rw [termPhase_loopHead] at hx; cases hx
+    have hlt : s.blk < c.blocks := (lt_blocks_iff c hn s.blk).mpr hacc.2.2
+    refine ⟨hlt, fun _ => ?_, fun hlt2 => ?_⟩
+    · simp only [Nat.add_sub_cancel]
+      have := hacc.1
+      exact ⟨by rw [← this]; exact hacc.2.1, hacc.2.2⟩
+    · -- another block exists, so the loop was left because `success` was set
+      have hsome : (scan c s.val s.blk (s.base, s.chosen)).2.isSome = true := by
+        cases hq : (scan c s.val s.blk (s.base, s.chosen)).2.isSome with
+        | true => rfl
+        | false => simp [loopHead, hq, hlt2] at hl
+      have hfull : c.active s.blk = c.n := by
+        have := (lt_blocks_iff c hn (s.blk + 1)).mp hlt2
+        simp only [Cfg.active, Nat.succ_mul] at this ⊢
+        omega
+      rw [hscan, hfull] at hsome
+      rw [Nat.succ_mul]; exact hsome
+  | _ =>
+    have hfr := stepC_blk c s s' hs (by rw [hp]; simp)
+    constructor
+    intro hx
+    have hx0 : s.cpc = .lockT ∨ termPhase s.cpc = true := by
+      simp only [stepC, hp] at hs
+      (try split at hs) <;> (try cases hs) <;> simp_all [termPhase, loopHead]
+      all_goals (split at hx <;> simp at hx)
+    rw [hfr]; exact hd hx0
+
+theorem stepW_blkframe (s s' : State) (w : Nat) (hs : stepW s w = some s') :
+    s'.blk = s.blk ∧ (s'.cpc = s.cpc ∨ s'.cpc = wakeC s.cpc) := by
+  unfold stepW at hs
+  split at hs <;> (try split at hs) <;> simp at hs <;> (try subst hs) <;> simp_all
+
+theorem blkInv_stepW (c : Cfg) (s s' : State) (w : Nat) (h : BlkInv c s) (hs : stepW s w = some s') : BlkInv c s' := by
+  obtain ⟨h1, h2⟩ := stepW_blkframe s s' w hs
+  constructor
+  intro hx
+  rw [h1]
+  apply h.done
+  rcases h2 with h2 | h2 <;> rw [h2] at hx
+  · exact hx
+  · simpa using hx
+
+theorem blkInv_spur (c : Cfg) (s s' : State) (t : Nat) (h : BlkInv c s) (hs : spur? c s t = some s') : BlkInv c s' := by
+  constructor
+  intro hx
+  unfold spur? at hs
+  split at hs <;> split at hs <;> simp at hs <;> subst hs
+  · rcases hx with hx | hx <;> simp [termPhase] at hx
+  · exact h.done hx
+
+theorem reach_blkInv (c : Cfg) (hn : 0 < c.n) {s : State} (h : Reach c s) : BlkInv c s := by
+  induction h with
+  | init => exact blkInv_init c
+  | step t hr hs ih =>
+    cases t with
+    | zero => exact blkInv_stepC c hn _ _ (reach_inv c hn hr) ih hs
+    | succ w =>
+      simp only [step?] at hs
+      split at hs
+      · exact blkInv_stepW c _ _ w ih hs
+      · cases hs
+  | spur t _ hs ih => exact blkInv_spur c _ _ t ih hs
+
+theorem chosen_ge_of_flat_none (less : Nat → Nat → Bool) (m K k : Nat) (hnone : (flat less m K).2 = none)
+    (hk1 : 1 ≤ k) (hk : less k 0 = true ∨ k = m - 1) : K ≤ k := by
+  apply Classical.byContradiction
+  intro hlt
+  have hlt : k < K := by omega
+  rcases flat_selInv less m K (by omega) with ⟨_, hall⟩ | ⟨k', _, _, hacc, _⟩
+  · have := hall k hk1 hlt
+    rcases hk with hk | hk
+    · rw [this.1] at hk; cases hk
+    · exact this.2 hk
+  · rw [hacc] at hnone; cases hnone
+
+theorem chosen_lt_of_flat_some (less : Nat → Nat → Bool) (m K k : Nat) (f : Bool) (hK : K ≤ m)
+    (hsome : (flat less m K).2.isSome = true) (hsel : selectSeq less m = (some 0, some (some k, f))) : k < K := by
+  have hK1 : 1 ≤ K := by
+    rcases Nat.eq_zero_or_pos K with h0 | h0
+    · subst h0; simp [flat_zero] at hsome
+    · exact h0
+  have hst := flat_stable less m K hsome (m - K)
+  have e : K + (m - K) = m := by omega
+  rw [e] at hst
+  rcases flat_selInv less m K hK1 with ⟨hacc, _⟩ | ⟨k', _, hk', hacc, _⟩
+  · rw [hacc] at hsome; cases hsome
+  · have : selectSeq less m = flat less m K := hst
+    rw [this, hacc] at hsel
+    have : k' = k := by
+      have := congrArg (fun a => a.2) hsel
+      simp at this
+      exact this.1
+    omega
+
 /-! ## the futile cycle: a waiting worker whose state is WAIT is woken spuriously, re-acquires the mutex, sees WAIT
 and waits again -/
 def futileCycle (w : Nat) : List (Nat × Bool) := [(w+1, true), (w+1, false), (w+1, false)]
